@@ -5,7 +5,7 @@ import math
 from . import rule, info
 from ..program import AnalysisError, src, norm, ClassInfo
 from ..affine import linear, NotAffine
-from ..util import (string_pieces, values_on, polarity, is_name, calls_in, callee_qual, deref, ancestors, stmt_of, parent, kwarg)
+from ..util import (flows_into, string_pieces, values_on, polarity, is_name, calls_in, callee_qual, deref, ancestors, stmt_of, parent, kwarg)
 from .c01 import model
 from .c02 import producers
 from ..pattern import match, matches
@@ -665,3 +665,45 @@ def slice_scaling(ctx):
         and is_name(r[0].value.args[0]) and is_name(st[0].targets[0].value, r[0].value.args[0].id)
     ctx.ob(ok, u, 'indexing and slicing return a new Path')
     ctx.floor(8)
+
+
+PICKLE_PROTOCOL = ('__reduce__', '__reduce_ex__', '__getnewargs__', '__getnewargs_ex__', '__getstate__', '__setstate__',
+                   '__copy__', '__deepcopy__')
+
+
+@rule('C18.11')
+def pickle_protocol_complete(ctx):
+    """pickling / copying goes through the default object protocol (the whole instance state)
+    except where TType maps its root to a name; any further protocol method on Path / TType
+    must hand over the complete recorded state -- the op tuple or the T expression holding it --
+    not a projection of it (values(), items(), a repr)"""
+    p = ctx.program
+    n = 0
+    for cq, state in (('core.Path', 'path_t'), ('core.TType', '__ops__')):
+        cls = ctx.cls(cq)
+        for name in PICKLE_PROTOCOL:
+            if not cls.defines(name):
+                continue
+            u = cls.methods[name]
+            n += 1
+            if name == '__setstate__':
+                st = [x for x in u.own_nodes() if isinstance(x, ast.Assign) and isinstance(x.targets[0], ast.Attribute)
+                      and x.targets[0].attr == state and is_name(x.targets[0].value, u.params[0])]
+                ctx.ob(len(st) >= 1, u, '%s.%s restores %s' % (cls.name, name, state))
+                continue
+            rets = [r for r in u.own_nodes() if isinstance(r, ast.Return) and r.value is not None]
+            def reads_state(e):
+                return any(isinstance(x, ast.Attribute) and x.attr == state and is_name(x.value, u.params[0])
+                           and not (isinstance(parent(x), ast.Attribute) and parent(x).attr in ('values', 'items'))
+                           for x in ast.walk(e))
+            # locals initialised from the state (``t_path = self.__ops__``) stand for it
+            state_locals = {x.targets[0].id for x in u.own_nodes() if isinstance(x, ast.Assign) and is_name(x.targets[0])
+                            and reads_state(x.value)}
+            whole = [r for r in rets if reads_state(r.value) or (flows_into(u, [r.value]) & state_locals)]
+            lossy = [r for r in rets if any(isinstance(x, ast.Call) and isinstance(x.func, ast.Attribute)
+                                            and x.func.attr in ('values', 'items', '__repr__', '__len__')
+                                            for x in ast.walk(r.value))]
+            ok = bool(rets) and len(whole) == len(rets) and not lossy
+            ctx.ob(ok, u, '%s.%s hands over the complete state (%s): %s' % (cls.name, name, state, [norm(r) for r in rets]),
+                   '' if ok else 'the pickled / copied form is a projection of the op tuple: step kinds or the root are lost')
+    ctx.floor(2)
